@@ -231,7 +231,8 @@ public:
 
     template<typename Fn>
     CXX20_REQUIRES(ReturnsFuture<Fn, T>)
-    future(Fn &&init) {
+    future(Fn &&init):future_common(&awaiter::instance, State::not_value) {
+        //if init() throws, the base is destroyed as a not initialized future, not as a pending one
         new(this) auto(init());
     }
 
